@@ -47,6 +47,14 @@ structure ClearSite where
   locked : Bool
   deriving DecidableEq, Repr
 
+/-- A function that edits a cached graph object in place (`g = x.graph; g.remove_edge(…)`). -/
+structure Editor where
+  fn : String
+  attr : Attr
+  /-- before its first edit it re-binds the attribute to an independent object (`x._graph_nx = g = nx.DiGraph(g)`) -/
+  detaches : Bool
+  deriving DecidableEq, Repr
+
 /-- Declarative facts extracted from the navis source by `translator/gen_cache.py`. -/
 structure Spec where
   tempAttr : List Attr
@@ -75,6 +83,23 @@ structure Spec where
   exclPrefix : Bool
   /-- `lock_neuron` releases the lock in a `finally:` (also when the wrapped call raises) -/
   lockFinally : Bool
+  /-- `lock_neuron` validates the caches *before* it takes the lock:
+  `if not x.is_locked and x.is_stale: x._clear_temp_attr()` precedes the increment of `_lock` -/
+  lockChecksStale : Bool
+  /-- `core_md5` restricts the table to the `CORE_DATA` columns (`data = data[cols]`) before hashing -/
+  hashSelectsCols : Bool
+  /-- the dtype conversion `core_md5` applies to the selected columns before hashing, as written in the source
+  (`""` when there is none beyond `DataFrame.values`, e.g. `"data.to_numpy(dtype=np.float32)"`) -/
+  hashCast : String
+  /-- number of significand bits of the array that reaches the hash function: 53 for `DataFrame.values` on the
+  int64 / float64 node table (pandas picks float64 as common dtype), 24 for an explicit float32 cast, 11 for
+  float16, 0 for a conversion the translator does not know -/
+  hashBits : Nat
+  /-- cached graph objects that `TreeNeuron.copy()` hands to the copy as a *view* of the original's object
+  (`_graph_nx.copy(as_view=…)`) -/
+  sharedOnCopy : List Attr
+  /-- every function that edits a cached graph object in place -/
+  editors : List Editor
   deriving Repr
 
 /-- Primitive protocol events (what the harness observes on the real object). -/
@@ -235,40 +260,143 @@ def soundB (sp : Spec) : Bool :=
   && sp.views.all (fun v => sp.tempAttr.contains v.attr)
   && sp.clearSites.all (fun c => sp.views.all (fun v => !(exclMatches sp c.excl v.attr)))
 
-/-- A call of a `@lock_neuron` function whose body performs `body` and then returns or raises. -/
-def lockedCall (sp : Spec) (body : List Ev) (raises : Bool) : List Ev :=
-  [Ev.lock] ++ body ++ (if raises && !sp.lockFinally then [] else [Ev.unlock])
+/-- What the `lock_neuron` wrapper does in state `s` *before* it increments the lock counter:
+`if not x.is_locked and x.is_stale: x._clear_temp_attr()` — nothing when the source has no such check or the
+neuron is already locked (nested call), otherwise an `is_stale` evaluation and, if stale, a clear. -/
+def lockEntryPrims (sp : Spec) (s : St) : List Ev :=
+  if !sp.lockChecksStale || decide (0 < s.lock) then []
+  else if (isStaleS sp s).stale then [.isStale, .clear []] else [.isStale]
+
+/-- A call, in state `s`, of a `@lock_neuron` function whose body performs `body` and then returns or raises. -/
+def lockedCall (sp : Spec) (s : St) (body : List Ev) (raises : Bool) : List Ev :=
+  lockEntryPrims sp s ++ [Ev.lock] ++ body ++ (if raises && !sp.lockFinally then [] else [Ev.unlock])
+
+/-- The primitive events of one catalogue operation in state `s`: (if the function is `@lock_neuron`) the
+wrapper's entry check and the lock, reads under the lock (`pre`), the change of the table, cache writes made
+from the changed table (`post`: graphs edited in step / carried over), the trailing
+`_clear_temp_attr(exclude=…)` of the call site (if not deleted), unlock. -/
+def opPrims (sp : Spec) (s : St) (c : ClearSite) (pre post : List View) (v t : Nat) (withClear : Bool) : List Ev :=
+  (if c.locked then lockEntryPrims sp s ++ [Ev.lock] else []) ++ pre.map (fun w => Ev.write w.attr) ++ [Ev.change v t]
+    ++ post.map (fun w => Ev.write w.attr) ++ (if withClear then [Ev.clear c.excl] else [])
+    ++ (if c.locked then [Ev.unlock] else [])
 
 /-- "the stamp says current" -/
 def stampCurrent (s : St) : Bool := s.lock == 0 && !s.stale && s.md5 == s.ver
 
+/-! ### Observed form of the composite events (what a trace of the real object shows)
+
+The primitive `clear excl` is the `TreeNeuron` override as a whole: the base clear and — unless
+`"classify_nodes"` is excluded — a call of `classify_nodes`, which is itself a `@lock_neuron` function.  A trace
+of the real object therefore shows, after the base clear, that nested call: its entry check, lock, unlock and
+the completion of the classification.  On the model state these extra events change nothing
+(`Props.C02.clear_trace_refines`). -/
+
+/-- the nested `classify_nodes(x)` call of the `TreeNeuron` override, in the state after the base clear
+(the tracer sees the classification complete when the locked wrapper has returned) -/
+def classifyCallTrace (sp : Spec) (s : St) : List Ev := lockedCall sp s [] false ++ [.classify]
+
+def clearTrace (sp : Spec) (s : St) (excl : List String) : List Ev :=
+  [.clear excl] ++ (if excl.contains "classify_nodes" then [] else classifyCallTrace sp (step sp s (.clear excl)))
+
+/-- replace every `clear` of an event list by its observed form -/
+def expandClears (sp : Spec) : St → List Ev → List Ev
+  | _, [] => []
+  | s, e :: es =>
+    (match e with
+     | .clear excl => clearTrace sp s excl
+     | _ => [e]) ++ expandClears sp (step sp s e) es
+
 /-! ### Wrapper discipline of a traced run (evaluated by the driver on real traces) -/
 
-/-- At every `enter v` the following events must be exactly what the wrapper does in the model state;
-at every `exit v` the attribute must be present.  Returns the indices of offending events. -/
-def disciplineAux (sp : Spec) : Nat → St → List Ev → List Nat
-  | _, _, [] => []
-  | i, s, e :: es =>
+/-- Offending event indices of a traced run:
+
+* at every `enter v` the following events must be exactly what the `temp_property` wrapper does in the model
+  state (observed form); an `is_stale` / clear right after it is only admissible as the entry check of a
+  `@lock_neuron` function called by the compute body;
+* at every `exit v` the attribute must be present;
+* every `lock` taken on an unlocked neuron must be preceded by exactly the entry check the generated spec
+  describes (`lockEntryPrims`, observed form): `just` collects the positions of the `lock` events justified so. -/
+def disciplineAux (sp : Spec) : Nat → List Nat → St → List Ev → List Nat
+  | _, _, _, [] => []
+  | i, just, s, e :: es =>
+    let ent := expandClears sp s (lockEntryPrims sp s)
+    let just := if !ent.isEmpty && (ent ++ [Ev.lock]).isPrefixOf (e :: es) then (i + ent.length) :: just else just
     let bad :=
       match e with
       | .enter n =>
         match findView sp n with
         | none => false
         | some v =>
-          let w := viewPrefix sp s v
+          let w := expandClears sp s (viewPrefix sp s v)
           !(w.isPrefixOf es) ||
-            (match es.drop w.length with
-             | .isStale :: _ => true
+            (let s' := run sp s w
+             let rest := es.drop w.length
+             let ent' := expandClears sp s' (lockEntryPrims sp s')
+             match rest with
+             | .isStale :: _ => ent'.isEmpty || !((ent' ++ [Ev.lock]).isPrefixOf rest)
              | .clear _ :: _ => true
              | _ => false)
       | .exit n =>
         match findView sp n with
         | none => false
         | some v => !(has s v.attr)
+      | .lock => sp.lockChecksStale && s.lock == 0 && !(just.contains i)
       | _ => false
-    (if bad then [i] else []) ++ disciplineAux sp (i + 1) (step sp s e) es
+    (if bad then [i] else []) ++ disciplineAux sp (i + 1) just (step sp s e) es
 
-def discipline (sp : Spec) (s : St) (es : List Ev) : List Nat := disciplineAux sp 0 s es
+def discipline (sp : Spec) (s : St) (es : List Ev) : List Nat := disciplineAux sp 0 [] s es
+
+/-! ### Objects shared between a neuron and its copy (fix 7a5fe2d)
+
+`TreeNeuron.copy()` gives the copy a *view* of the original's networkx graph object.  Sharing is harmless as long
+as nobody edits the shared object in place.  The model tracks, for one cache attribute and a pair (original `A`,
+copy `B`), the content each side's cached object describes and whether both sides reference the *same* object.
+A direct edit of a table only drops that side's reference (the staleness wrapper clears it at the next read);
+an operation that edits the cached object in step with the table (reroot) either detaches first (the side gets an
+independent object) or writes through to whoever shares the object. -/
+
+structure Pair where
+  verA : Nat
+  verB : Nat
+  /-- content described by the object `A` (`B`) holds, if any -/
+  tagA : Option Nat
+  tagB : Option Nat
+  /-- both hold the same object -/
+  same : Bool
+  deriving DecidableEq, Repr
+
+inductive PEv where
+  | warm (b : Bool)              -- side computes its view from its own table (a new object)
+  | copy (b : Bool)              -- the other side becomes a copy of side `b` (`false` = A, `true` = B)
+  | edit (b : Bool) (v : Nat)    -- an operation on side `b` changes its table to `v` and co-edits its cached object
+  | change (b : Bool) (v : Nat)  -- direct edit / replacement of side `b`'s table
+  deriving DecidableEq, Repr
+
+def pstep (shared detaches : Bool) (p : Pair) : PEv → Pair
+  | .warm false => if p.tagA.isSome then p else { p with tagA := some p.verA, same := false }
+  | .warm true => if p.tagB.isSome then p else { p with tagB := some p.verB, same := false }
+  | .copy false => { p with verB := p.verA, tagB := p.tagA, same := shared && p.tagA.isSome }
+  | .copy true => { p with verA := p.verB, tagA := p.tagB, same := shared && p.tagB.isSome }
+  | .edit false v =>
+    if p.tagA.isNone then { p with verA := v }
+    else if detaches || !p.same then { p with verA := v, tagA := some v, same := false }
+    else { p with verA := v, tagA := some v, tagB := some v }
+  | .edit true v =>
+    if p.tagB.isNone then { p with verB := v }
+    else if detaches || !p.same then { p with verB := v, tagB := some v, same := false }
+    else { p with verB := v, tagB := some v, tagA := some v }
+  | .change false v => { p with verA := v, tagA := none, same := false }
+  | .change true v => { p with verB := v, tagB := none, same := false }
+
+def prun (shared detaches : Bool) (p : Pair) (es : List PEv) : Pair := es.foldl (pstep shared detaches) p
+
+/-- each side's cached object describes that side's own table -/
+def PairOK (p : Pair) : Prop :=
+  (p.tagA = none ∨ p.tagA = some p.verA) ∧ (p.tagB = none ∨ p.tagB = some p.verB)
+
+/-- source-level obligation: whoever edits an object that copies share must detach first -/
+def aliasSafeB (sp : Spec) : Bool :=
+  sp.editors.all (fun e => !(sp.sharedOnCopy.contains e.attr) || e.detaches)
 
 /-! ### Which node-table columns a view is computed from (read in the compute bodies) -/
 
